@@ -1161,3 +1161,41 @@ def call_uses(body, flow):
         if idx:
             out.append((b, t, idx))
     return out
+
+
+
+# --------------------------------------------------------------------------- pure helper inlining (HIR canon)
+
+
+def simple_expr_fn(fn):
+    """(param ids, tail expr) if the fn body is a single expression over plainly bound parameters"""
+    h = fn.hir
+    v = strip_refs(h['value'])
+    if v.get('k') == 'block':
+        if v.get('stmts') or v.get('tail') is None or v.get('unsafe'):
+            return None
+        v = v['tail']
+    ids = []
+    for p in h['params']:
+        if p.get('k') != 'bind':
+            return None
+        ids.append(p['id'])
+    return ids, v
+
+
+def inline_calls(c, facts, depth=0):
+    """replace calls of single-expression crate helpers (predicates, position computations, getters) by their
+    bodies in a canonical HIR expression, so that extracting such a helper does not change any verdict"""
+    if not isinstance(c, tuple) or depth > 4:
+        return c
+    if c and c[0] == 'call' and isinstance(c[1], str) and c[1] in facts.fns and len(c) == 3:
+        fn = facts.fns[c[1]]
+        se = simple_expr_fn(fn) if not fn.impl_trait else None
+        args = tuple(inline_calls(a, facts, depth) for a in c[2])
+        if se is not None and len(se[0]) == len(args):
+            env = dict(zip(se[0], args))
+            body = hcanon(se[1], env)
+            if body[0] != 'hir':
+                return inline_calls(body, facts, depth + 1)
+        return ('call', c[1], args)
+    return tuple(inline_calls(x, facts, depth) for x in c)
